@@ -1,0 +1,60 @@
+//go:build verif
+
+package interp
+
+import "fmt"
+
+// Exports of unexported argument-handling helpers for the external verification harness
+// (property C28, -tags verif only).  Add-only; nothing here is used by the package itself.
+
+// VerifC28Getopts exposes the persistent (argidx, runeidx) cursor of the getopts builtin.
+type VerifC28Getopts struct{ ArgIdx, RuneIdx int }
+
+// Next runs getopts.next once on the current cursor; a Go panic is reported as text.
+func (v *VerifC28Getopts) Next(optstr string, args []string) (opt rune, optarg string, done bool, panicked string) {
+	g := getopts{argidx: v.ArgIdx, runeidx: v.RuneIdx}
+	defer func() {
+		if r := recover(); r != nil {
+			panicked = fmt.Sprint(r)
+		}
+		v.ArgIdx, v.RuneIdx = g.argidx, g.runeidx
+	}()
+	opt, optarg, done = g.next(optstr, args)
+	return
+}
+
+// VerifC28FlagParser runs a script of flagParser calls over args: 'm' more(), 'f' flag(),
+// 'v' value(), 'a' args().  The trace has one entry per executed call; a Go panic stops the
+// script and is reported as text.
+func VerifC28FlagParser(args []string, script string) (trace []string, panicked string) {
+	fp := flagParser{remaining: args}
+	defer func() {
+		if r := recover(); r != nil {
+			panicked = fmt.Sprint(r)
+		}
+	}()
+	for _, op := range script {
+		switch op {
+		case 'm':
+			if fp.more() {
+				trace = append(trace, "m1")
+			} else {
+				trace = append(trace, "m0")
+			}
+		case 'f':
+			trace = append(trace, "f"+fmt.Sprintf("%x", fp.flag()))
+		case 'v':
+			trace = append(trace, "v"+fmt.Sprintf("%x", fp.value()))
+		case 'a':
+			s := "a"
+			if fp.args() == nil {
+				s = "n"
+			}
+			for _, a := range fp.args() {
+				s += fmt.Sprintf(":%x", a)
+			}
+			trace = append(trace, s)
+		}
+	}
+	return trace, ""
+}
